@@ -159,6 +159,11 @@ def build_crystal(rec):
     sg = SpaceGroup(rec["number"], choice=rec["choice"]) if rec["choice"] else SpaceGroup(rec["number"])
     lengths, angles = cell_params(rec["gram"], rec["u"])
     uc = UnitCell.from_lengths_and_angles(lengths, angles)
+    if rec.get("route") == "respec":
+        # a cell object that described another cell, was used (volume, reciprocal lengths), and is re-specified in place
+        uc = UnitCell.from_lengths_and_angles([2.3 * lengths[0], 0.8 * lengths[1], 1.4 * lengths[2]], [1.25, 1.45, 1.85])
+        uc.volume(), uc.a_star, uc.b_star, uc.c_star, uc.parameters
+        uc.set_lengths_and_angles(lengths, angles)
     if rec.get("route") == "vectors":
         d = np.array(uc.direct, dtype=float)
         if rec.get("rot") is not None:
